@@ -65,6 +65,9 @@ mut("C04", "weak_eq_strips_one_side", "C04.R2", [(E, '    let b = b.strip_prefix
 mut("C04", "sweep_corrupt_initially_true", "C04.R5", [(E, "            corrupt: false,\n        }\n    }\n}", "            corrupt: true,\n        }\n    }\n}")])
 mut("C04", "sweep_flag_never_flips", "C04.R3", [(E, "if !any_match && strong_eq(item, some_etag.as_bytes()) {", "if any_match && strong_eq(item, some_etag.as_bytes()) {")])
 mut("C03", "sweep_open_range_never_taken", "C03.R2", [(R, "let end = if r.len() > hyphen + 1 {", "let end = if r.len() >= hyphen + 1 {")])
+mut("C03", "no_trim_after_comma", "C03.R4", [(R, "let r = r.trim_start_matches([' ', '\\t']);", "let r = r.trim_start_matches([' ']);")])
+mut("C16", "coding_not_trimmed", "C16.R2", [(L, "                coding = c.trim();", "                coding = c;")])
+mut("C16", "weight_not_trimmed", "C16.R2", [(L, "                let Some(q) = q\n                    .trim()\n                    .strip_prefix(\"q=\")", "                let Some(q) = q\n                    .strip_prefix(\"q=\")")])
 # ---------------- C05
 mut("C05", "gate_uses_weak", "C05.R2", [(S, "if etag::strong_eq(if_range, some_etag.as_bytes()) {", "if etag::weak_eq(if_range, some_etag.as_bytes()) {")])
 mut("C05", "date_if_range_keeps_range", "C05.R1", [(S, "                // The resource could have changed twice in the supplied second, so never match.\n                range_hdr = None;\n                true", "                // The resource could have changed twice in the supplied second, so never match.\n                true")])
